@@ -485,6 +485,7 @@ impl World {
         json!({"harper-ls": {
             "userDictPath": self.user_dict.to_string_lossy(),
             "fileDictPath": self.file_dict_dir.to_string_lossy(),
+            "statsPath": self.stats.to_string_lossy(),
             "linters": linters,
             "dialect": dialect,
         }})
